@@ -101,6 +101,7 @@ class C10Kernel(Machine):
                 "writer": rng.pick(["none", "recording", "real", "real"]),
                 "triggers": rng.pick(["none", "func", "dict"]),
                 "dict_global": rng.pick(["any", "all", "never"]),
+                "int_vertices": rng.chance(0.25),
                 "offcone_max": rng.pick([None, 40, 40, 10, 1.5]),
                 "weight_min": rng.pick([None, None, 1e-2, [1e-2, 1e-4], [0.0, 1e-5]]),
                 "att_interp": rng.pick([None, 0.1, 0.5]),
@@ -273,7 +274,11 @@ class C10Kernel(Machine):
     # -- components ----------------------------------------------------------
     def _particle(self, spec):
         P = self.pyrex
-        p = P.Particle(spec["id"], vertex=tuple(spec["vertex"]), direction=tuple(spec["direction"]),
+        vertex = tuple(spec["vertex"])
+        if self.cfg.get("int_vertices"):
+            # the same (whole-number) coordinates spelled as Python ints
+            vertex = tuple(int(x) for x in vertex)
+        p = P.Particle(spec["id"], vertex=vertex, direction=tuple(spec["direction"]),
                        energy=spec["energy"], interaction_type=spec["kind"])
         p.survival_weight = spec["sw"]
         p.interaction_weight = spec["iw"]
@@ -517,7 +522,9 @@ class C10Kernel(Machine):
                 self.count("probe.weight_cut")
                 continue
             for i, ant in enumerate(self.antennas):
-                st2, sols = self.sut(lambda: list(self.tracer_cls(p.vertex, ant.position,
+                # (the independent tracer always gets the coordinates as floats)
+                st2, sols = self.sut(lambda: list(self.tracer_cls(np.array(p.vertex, dtype=float),
+                                                                  np.array(ant.position, dtype=float),
                                                                   ice_model=self.ice).solutions),
                                      where="independent tracer")
                 if not sols:
